@@ -105,6 +105,35 @@ func c20BigLines() []string {
 	return l
 }
 
+// c20ExchangeRaw sends raw bytes as one DNS message and returns the reply.
+func c20ExchangeRaw(addr string, tcp bool, wire []byte) (*dns.Msg, error) {
+	netw := "udp"
+	if tcp {
+		netw = "tcp"
+	}
+	c := &dns.Client{Net: netw, Timeout: 5 * time.Second}
+	conn, err := c.Dial(addr)
+	if err != nil {
+		return nil, err
+	}
+	defer conn.Close()
+	conn.SetDeadline(time.Now().Add(5 * time.Second))
+	conn.UDPSize = 65535
+	if _, err := conn.Write(wire); err != nil {
+		return nil, err
+	}
+	hdr := new(dns.Header)
+	p, err := conn.ReadMsgHeader(hdr)
+	if err != nil {
+		return nil, err
+	}
+	m := new(dns.Msg)
+	if err := m.Unpack(p); err != nil {
+		return nil, fmt.Errorf("reply does not unpack: %w", err)
+	}
+	return m, nil
+}
+
 // c20Exchange sends q over the given transport and returns the reply plus the wire length.
 func c20Exchange(addr string, tcp bool, q *dns.Msg) (*dns.Msg, int, error) {
 	netw := "udp"
@@ -392,20 +421,25 @@ func c20Worker(args []string) int {
 			sum.Counts["oversized_complete_over_tcp"]++
 		}
 	}
-	// a message without a question: failure reply, server stays up
+	// a message without a question: failure reply, server stays up. Three shapes: QDCOUNT=0 (the DNS library refuses
+	// it before any handler runs), and a bare header that CLAIMS one question / one question and one additional record
+	// but carries none - the library accepts those and hands the front handlers a message with an empty question section
+	hdr := func(qd, ar uint16) []byte {
+		return []byte{0x10, 0x92, 0, 0, byte(qd >> 8), byte(qd), 0, 0, 0, 0, byte(ar >> 8), byte(ar)}
+	}
 	for _, tcp := range []bool{false, true} {
-		q := new(dns.Msg)
-		q.Id = 4242
-		got, _, err := c20Exchange(addr, tcp, q)
-		sum.Exchanges++
-		if err != nil {
-			fail("question-less message (tcp=%v): no reply: %v", tcp, err)
-		} else if got.Rcode == dns.RcodeSuccess {
-			fail("question-less message (tcp=%v) answered with NOERROR: %s", tcp, oneLine(got))
-		} else {
-			sum.Counts["questionless_failure_replies"]++
+		for wi, wire := range [][]byte{hdr(0, 0), hdr(1, 0), hdr(1, 1)} {
+			got, err := c20ExchangeRaw(addr, tcp, wire)
+			sum.Exchanges++
+			if err != nil {
+				fail("question-less message #%d (tcp=%v): no reply: %v", wi, tcp, err)
+			} else if got.Rcode == dns.RcodeSuccess {
+				fail("question-less message #%d (tcp=%v) answered with NOERROR: %s", wi, tcp, oneLine(got))
+			} else {
+				sum.Counts["questionless_failure_replies"]++
+			}
+			compare(harness.MakeQuery("single.example.com.", dns.TypeA, 90), tcp, "after-questionless")
 		}
-		compare(harness.MakeQuery("single.example.com.", dns.TypeA, 90), tcp, "after-questionless")
 	}
 	// shutdown under load
 	journal("shutdown under load")
@@ -439,7 +473,7 @@ func oneLine(m *dns.Msg) string {
 }
 
 func runC20(r *report.Run) {
-	r.SetRule("a real fbserver.Server on a loopback port (UDP+TCP) per configuration {backend x whoami domain set/unset x refuse-any on/off x max-answer 1/3/8 x 127.0.0.1/::1, plus servers bound to two addresses with different max-answer settings}, race-detector build, child process each; generated queries (names of a generated file, standard and ANY types, one in five with a class other than IN, no EDNS / 512 / 1232 / 4096, with and without ECS) sent with a DNS client over UDP and TCP; every reply is compared canonically with the bare FBDNSDB handler on the same database, remote address and max-answer (addresses reduced to owner+type); oversized answers (40 TXT / 40 NS with glue) must come back with TC over UDP within the advertised size (actual datagram length) and complete over TCP; ANY with refusal must be exactly the synthesized HINFO; whoami-domain queries must be answered by the whoami handler; a question-less message must get a failure rcode and the server must keep answering; shutdown is performed under load. non-trivial = configuration whose exchanges include a truncated reply and a TCP reply; distinct by configuration")
+	r.SetRule("a real fbserver.Server on a loopback port (UDP+TCP) per configuration {backend x whoami domain set/unset x refuse-any on/off x max-answer 1/3/8 x 127.0.0.1/::1, plus servers bound to two addresses with different max-answer settings}, race-detector build, child process each; generated queries (names of a generated file, standard and ANY types, one in five with a class other than IN, no EDNS / 512 / 1232 / 4096, with and without ECS) sent with a DNS client over UDP and TCP; every reply is compared canonically with the bare FBDNSDB handler on the same database, remote address and max-answer (addresses reduced to owner+type); oversized answers (40 TXT / 40 NS with glue) must come back with TC over UDP within the advertised size (actual datagram length) and complete over TCP; ANY with refusal must be exactly the synthesized HINFO; whoami-domain queries must be answered by the whoami handler; question-less messages (QDCOUNT=0, and bare headers claiming QDCOUNT=1 with and without ARCOUNT=1, which the DNS library lets through to the front handlers) must get a failure rcode and the server must keep answering; shutdown is performed under load. non-trivial = configuration whose exchanges include a truncated reply and a TCP reply; distinct by configuration")
 	r.Assume("loopback only; the harness picks a port free for UDP and TCP and retries on bind failure")
 	var cfgs []c20Config
 	i := 0
